@@ -4,8 +4,15 @@ import common as C
 import suite as S
 
 
+# what the last call of `correspond` saw (evidence): lines compared, lines whose structure has a key outside str | int
+# (printed and parsed by XModel/ParseKeys.lean), lines where the model parser read Python's tokens of the real text
+STATS = {"lines": 0, "extended_key_lines": 0, "real_tokens_parsed_by_model": 0}
+
+
 def correspond(prop, prefixes):
     diffs, n = [], 0
+    for k in STATS:
+        STATS[k] = 0
     for pref, bdir, bname in prefixes:
         C.run_driver("expr", pref + ".ops.jsonl", pref + ".model.jsonl")
         ops = S.load_lines(pref + ".ops.jsonl")
@@ -24,4 +31,17 @@ def correspond(prop, prefixes):
                               "impl": o["impl"].get("tokens"), "model": m.get("tokens")})
             elif not m.get("parses_back"):
                 diffs.append({"field": "parses_back", "pexpr": o["pexpr"], "text": o["impl"].get("text")})
+            elif m.get("ext_tokens_same") is False or m.get("ext_parses_back") is False:
+                # a structure inside XModel/Parse.lean's language: the extended model (XModel/ParseKeys.lean) must print
+                # its embedding with the same tokens and read them back (ParseKeys.print_embed / parse_print_embed, executed)
+                diffs.append({"field": "extended-model-disagrees-with-Parse", "pexpr": o["pexpr"], "text": o["impl"].get("text"),
+                              "ext_tokens_same": m.get("ext_tokens_same"), "ext_parses_back": m.get("ext_parses_back")})
+            elif m.get("impl_parse") is False:
+                # the MODEL parser (with tuple / bool / None / float keys) on Python's tokens of the REAL text does not
+                # give the structure read from the object's fields
+                diffs.append({"field": "impl_parse", "pexpr": o["pexpr"], "text": o["impl"].get("text"),
+                              "impl": o["impl"].get("tokens")})
+            STATS["lines"] += 1
+            STATS["extended_key_lines"] += bool(m.get("ext"))
+            STATS["real_tokens_parsed_by_model"] += m.get("impl_parse") is True
     return diffs, n
